@@ -306,6 +306,12 @@ class Cluster(object):
             for pid, p in sorted(self.topics[t].items()):
                 leader = p.leader if (p.leader in self.brokers and self.brokers[p.leader].up and self.brokers[p.leader].listed) else -1
                 parts.append((E_LEADER_NOT_AVAILABLE if leader == -1 else 0, pid, leader, [r for r in p.replicas], [r for r in p.isr]))
+            # a broker lists a topic's partitions in no particular order
+            order = getattr(self, "md_order", "asc")
+            if order == "desc":
+                parts.reverse()
+            elif order == "rot" and len(parts) > 1:
+                parts = parts[1:] + parts[:1]
             tl.append((terr, t, parts))
         return brokers, tl
 
@@ -317,6 +323,7 @@ class Cluster(object):
 
     def h_find_coordinator(self, node, conn, req, rec, info):
         code = self._take_override(node, "find_coordinator")
+        info["group"] = req["group"]
         c = self.coordinator_of(req["group"])
         if code is not None:
             info["coordinator"] = (code, -1)
